@@ -104,6 +104,10 @@ def r10a(model, ctx):
     ifs = [s for s in fs.body if isinstance(s, ast.If) and unparse(s.test) == "isinstance(index, slice)"]
     need(len(ifs) == 1, "MemoryData.Init.__setitem__: slice/index split not found")
     sl, ix = ifs[0].body, ifs[0].orelse
+    if not ix and sl and isinstance(sl[-1], ast.Return):
+        # guard-clause form: the slice branch returns, the single-row path follows the `if`
+        ix = fs.body[fs.body.index(ifs[0]) + 1:]
+        sl = sl[:-1]
     def stores(stmts):
         out = []
         for s in stmts:
